@@ -131,6 +131,12 @@ func Run(tier string) int {
 					kids[i] = elems[c]()
 				}
 				for _, n := range []*ref.Node{ref.Then(kids...), ref.Not(ref.Then(kids...))} {
+					// same construction-cost rule as the tree families: a negated chain whose
+					// expansion has many alternatives is "negating a large disjunction"
+					if _, _, cost := ref.Shape(n, atomShape); cost > 2000 {
+						skippedExponential++
+						continue
+					}
 					t := n.Text()
 					if !seenText[t] {
 						seenText[t] = true
